@@ -99,26 +99,80 @@ PROPS['C12'] = {
     'per_harness': {'.': {'handler': 'fp_tabulate'}},
     'technique': PROPS['C03']['technique'] + '; relational (2-safety) check over the cube table',
 }
+PARSER_PARAMS = {
+    'h3[01]': {'quick': {'params': {'PARSE_N': 22, 'TAIL_N': 12}}, 'thorough': {'params': {'PARSE_N': 30, 'TAIL_N': 18}}},
+    'h20': {'quick': {'params': {'PARSE_N': 12, 'TAIL_N': 6}}, 'thorough': {'params': {'PARSE_N': 18, 'TAIL_N': 12}}},
+    'h40': {'quick': {'params': {'PARSE_N': 20, 'TAIL_N': 6}}, 'thorough': {'params': {'PARSE_N': 30, 'TAIL_N': 12}}},
+}
+PARSER_BOUNDS = ('two input spaces per version, both decided completely by the solver: (a) every byte string of length <= PARSE_N; (b) "shaped" strings: the canonical base part '
+                 '(header, mandatory metrics in specification order) with every VALUE an arbitrary byte other than \'/\', followed by an arbitrary byte string of length <= TAIL_N '
+                 '(so that accepted vectors, optional metrics, repeated/unknown/misplaced elements and trailing garbage are all reached). quick: v2 12/6, v3.x 22/12, v4 20/6; '
+                 'thorough: v2 18/12, v3.x 30/18, v4 30/12. Longer strings and other shapes are outside the claim')
 PROPS['C01'] = {
-    'disabled': True,
     'level': 'model_checking',
     'pkgs': ALLV,
-    'text': 'bounded model checking of the real ParseVector against a reference recogniser written from the grammar: for every byte string up to the stated length, accept <=> grammar accepts, (object, error) nil-ness, and no panic / out-of-range index / failed type assertion on any path',
-    'bounds': 'every byte string of length <= N (N per version and tier in the evidence); longer strings are outside the claim',
+    'text': 'bounded model checking of the real ParseVector (and split/splitCouple/strings.Cut/kvm.Set/Set/validate, sync.Pool stub) against a reference recogniser written from the grammar: accept <=> grammar accepts, (object, error) nil-ness, and no panic / out-of-range index / failed type assertion on any path',
+    'bounds': PARSER_BOUNDS,
     'solvers': {'quick': ['z3'], 'thorough': ['z3', 'z3new']},
     'timeout': {'quick': 900, 'thorough': 3600},
+    'per_harness': PARSER_PARAMS,
+    'technique': 'SMT-based bounded model checking of the real parser (go/ssa -> SMT-LIB2, z3) against a reference recogniser, counterexamples replayed natively',
 }
+PROPS['C06'] = {
+    'level': 'model_checking',
+    'pkgs': ALLV,
+    'text': 'after a successful ParseVector(s) every Get(m) equals the value the reference tokeniser reads for m in s (not-defined when absent), for all inputs of the bounded spaces',
+    'bounds': PARSER_BOUNDS,
+    'solvers': {'quick': ['z3'], 'thorough': ['z3', 'z3new']},
+    'timeout': {'quick': 900, 'thorough': 3600},
+    'per_harness': PARSER_PARAMS,
+    'technique': PROPS['C01']['technique'],
+}
+
+
 PROPS['C04'] = {
     'level': 'proof',
     'pkgs': ['h40'],
-    'text': 'v4.0 Score equals the specification MacroVector algorithm (exact rationals, round half up) on every reachable object: the real Score/macroVector/lookupMV/severityDistance code is executed symbolically, the solver enumerates the cubes of its integer->float frontier (MacroVector levels, severity-distance sums, shortcut and loop conditions) jointly with the reference MacroVector and distance sums computed from the effective metric values, and the folded score of every cube is compared with the exact value. ' + FP_NOTE,
-    'bounds': 'none: complete over the 267,483,013,447,680,000 v4.0 objects (coverage of the cube set certified by the solver per MacroVector partition)',
+    'text': 'v4.0 Score equals the specification MacroVector algorithm (exact rationals, round half up) on every reachable object, and depends on the object only through the effective values (v4.0 part of C10): the real Score/macroVector/lookupMV/severityDistance code is executed symbolically; its integer->float frontier (MacroVector levels, severity-distance sums, shortcut) is tabulated and folded by the solver; the joint table (frontier tuple, effective severity levels of the 15 scoring metrics) is derived from solver-enumerated bit-field groups by exact integer evaluation over their product; every one of the 15,116,544 effective classes is compared with the exact oracle. ' + FP_NOTE,
+    'bounds': 'none: complete over the 267,483,013,447,680,000 v4.0 objects (15,116,544 effective classes x defined/not-defined variants; coverage of every bit-field group certified by the solver)',
     'solvers': {'quick': ['z3'], 'thorough': ['z3']},
-    'per_harness': {'.': {'handler': 'fp_tabulate'}},
-    'technique': PROPS['C03']['technique'],
-    'assumptions': ['oracle data: /verif/spec/v4_data.json extracted from claircore\'s independent port of the FIRST calculator (lookup table, highest-severity vectors, depths); algorithm in /verif/spec/cvss4_spec.py and harness/h40/score.go written from the specification text'],
+    'per_harness': {'.': {'handler': 'fp_oracle'}},
+    'technique': PROPS['C03']['technique'] + '; integer part evaluated exactly over the product of solver-enumerated bit-field groups',
+    'assumptions': ['oracle data: /verif/spec/v4_data.json extracted from claircore\'s independent port of the FIRST calculator (lookup table, highest-severity vectors, depths); algorithm in /verif/spec/cvss4_spec.py written from the specification text',
+                    'the cube set is the product of the per-group tuple sets and each group is enumerated against the assumption conjuncts that mention its input bits only: a superset of the reachable cubes (sound); mismatches are confirmed by a solver query for a concrete object and replayed natively'],
 }
 PROPS['C11']['pkgs'] = ['h20', 'h30', 'h31', 'h40']
+PROPS['C13'] = {
+    'level': 'model_checking',
+    'pkgs': ['hcross'],
+    'text': 'no string is accepted by two versions: all four real parsers are executed symbolically on the same input; (a) every byte string up to PARSE_N, (b) for each version, every string with that version\'s header and canonical base part (arbitrary values) and an arbitrary tail is rejected by the three other parsers',
+    'bounds': 'quick: (a) PARSE_N = 10, (b) tail <= 6; thorough: 16 / 12. The second half of the property (Vector() output) follows from (b) together with C08 (Vector() output starts with the version\'s header and canonical base part); not checked directly',
+    'solvers': {'quick': ['z3'], 'thorough': ['z3', 'z3new']},
+    'timeout': {'quick': 900, 'thorough': 3600},
+    'per_harness': {'.': {'quick': {'params': {'PARSE_N': 10, 'TAIL_N': 6}}, 'thorough': {'params': {'PARSE_N': 16, 'TAIL_N': 12}}}},
+    'technique': PROPS['C01']['technique'],
+}
+PROPS['C14'] = {
+    'level': 'model_checking',
+    'pkgs': ALLV,
+    'text': 'PARTIAL (sequential part): (i) v2.0 ParseVector gives the same result whatever an earlier call left in the pooled scratch slice (sync.Pool.Get modelled as returning arbitrary contents, two calls compared); (ii) confinement: in every symbolic run of every check no exported function stores to a package-level variable after initialisation and nothing is accessed after Put (obligations "confinement"/"released" of all parser harnesses); interleavings and the Go memory model are NOT decided by the solver: race freedom is argued from (i)-(ii), value-type receivers and the sync.Pool contract',
+    'bounds': 'inputs as for C01 (PARSE_N / TAIL_N); concurrency itself is outside the claim',
+    'solvers': {'quick': ['z3'], 'thorough': ['z3', 'z3new']},
+    'timeout': {'quick': 900, 'thorough': 3600},
+    'per_harness': PARSER_PARAMS,
+    'technique': PROPS['C01']['technique'],
+}
+
+
+PROPS['C08'] = {
+    'level': 'model_checking',
+    'pkgs': ALLV,
+    'text': '(a) Vector() equals the canonical serialisation of the object (reference serialiser written from the property text) on EVERY reachable object: both buffers are kept as sequences of conditional bytes and compared structurally, the conditions are proved pairwise equivalent by the solver - no length bound; (b) with C06 (values read back) and C01 this gives: parse-then-serialise is the canonical spelling of the input, for inputs within the parser bounds',
+    'bounds': '(a) none (all reachable objects); (b) the parser bounds of C01/C06. Idempotence and "canonical input is a fixpoint" follow from (a)+(b) and are not asserted separately',
+    'solvers': {'quick': ['z3'], 'thorough': ['z3', 'z3new', 'cvc5']},
+    'technique': 'SMT over the symbolically executed Vector()/lenVec/append code: structural comparison of append-only buffers, condition equivalences discharged by z3',
+}
+
 
 def harnesses(pid, tier, hf):
     cfg = PROPS[pid]
@@ -165,6 +219,8 @@ def _vals(model):
 def model_json(harness, rec, tables=None):
     d = {'harness': harness, 'label': rec.get('label'), 'kind': rec.get('kind'), 'pos': rec.get('pos'), 'values': _vals(rec.get('model')),
          'tables': tables or rec.get('tables') or {}}
+    if rec.get('oracle'):
+        d['oracle'] = rec['oracle']
     if rec.get('pair'):
         d['pair'] = [_vals(m) for m in rec['pair']]
         d['relation'] = rec.get('relation')
